@@ -82,12 +82,14 @@ Misuse(ns) ==
 
 \* the end of a report that listed n leaks, from buffer state a (a.cut = something of the listing was dropped),
 \* started at fill position start: d = number of digits of n, warn = malloc leaks among them,
-\* keepLow = whether a report without leaks leaves the limit lowered (the code does; the property does not care).
+\* keepLow = whether a report without leaks says so under the lowered limit and leaves it lowered (the code does), or puts
+\* the limit back first (the property does not care).
 \* Result: buffer state, limit, and what the report says.
 Finish(a, n, start, d, warn, keepLow) ==
     IF n = 0
-    THEN LET b == Add([a EXCEPT !.cut = FALSE], Low, NoLeakLen) IN
-         [s |-> b, lim |-> IF keepLow THEN Low ELSE Top,
+    THEN LET lim0 == IF keepLow THEN Low ELSE Top
+             b == Add([a EXCEPT !.cut = FALSE], lim0, NoLeakLen) IN
+         [s |-> b, lim |-> lim0,
           rep |-> [kind |-> "report", n |-> 0, fresh |-> (start = 0), cut |-> FALSE, notice |-> FALSE, footer |-> ~b.cut, start |-> start]]
     ELSE LET reached == a.f >= Low
              b1 == IF reached THEN Add([a EXCEPT !.cut = FALSE], Top, NoticeLen) ELSE [a EXCEPT !.cut = FALSE]
@@ -142,7 +144,7 @@ Terminated == nul = filled
 TruthfulWhenFresh == (rep.kind = "report" /\ rep.fresh) => /\ rep.footer
                                                            /\ (rep.n > 0 /\ rep.cut => rep.notice)
 \* the reserve is what makes that true: footer pieces together never exceed it
-ReserveSufficient == \A d \in Digits : NoticeLen + FooterBase + d + WarnLen + 1 <= Reserve
+ReserveSufficient == filled >= 0 /\ \A d \in Digits : NoticeLen + FooterBase + d + WarnLen + 1 <= Reserve
 \* report() as one call and report() in steps are the same thing: checked by Trace/Gen modules that use Report,
 \* and here by the listing never outliving a behaviour's end in a state that Report could not produce
 ListingSane == listing.on => limit = Low /\ listing.start <= Top
